@@ -68,6 +68,19 @@ def grid(name, rng, n):
         elif name == "DP17":
             c.update(param_lambda=pick(ks), param_L=pick([1, 2, 3, 1]), param_identifier_size=pick([8, 4, 16, 5]),
                      param_actual_storage_level_ratio=pick([0.2, 0.5, 1.0, 0.34]))
+        if i == 3:
+            # one configuration per scheme whose encrypted plaintext is an exact multiple of the cipher block (PKCS#7 then adds
+            # a whole block): any "IV + body rounded up to blocks" size formula is wrong exactly there
+            if name == "SSE1":
+                c.update(param_k=16, param_s=256, param_identifier_size=15)      # node = 15 + 16 + 1 = 32 bytes
+            elif name == "PiPack":
+                c.update(param_B=4, param_identifier_size=4)                     # block = 16 bytes
+            elif name == "PiPtr":
+                c.update(param_B=2, param_b=2, param_identifier_size=8)          # block = 16 bytes
+            elif name == "CT14" or name == "ANSS16":
+                c.update(param_identifier_size=16)
+            elif name == "DP17":
+                c.update(param_lambda=16, param_identifier_size=16)              # id ‖ 0^λ = 32 bytes
         out.append(c)
     return out
 
@@ -84,6 +97,28 @@ def _ident(rng, size, used):
             return x
 
 
+def _structured_ident(rng, size, used, n):
+    """identifiers as applications write them - document numbers, left-aligned codes, sparse bit masks: valid (right size, not all
+    zero) but full of NUL runs at the start, at the end and across the boundary between two neighbours"""
+    for _ in range(200):
+        kind = rng.randrange(5)
+        v = rng.randint(1, 600)
+        if kind == 0:
+            x = v.to_bytes(max(size, 2), "big")[-size:]                         # 00 00 00 .. 02 01
+        elif kind == 1:
+            x = (v.to_bytes(2, "big").lstrip(b"\0") + bytes(size))[:size]       # 02 01 00 00 .. 00
+        elif kind == 2:
+            x = bytearray(size); x[rng.randrange(size)] = rng.randint(1, 255); x = bytes(x)
+        elif kind == 3:
+            x = bytes([0xFF] * (size - 1)) + bytes([rng.randint(0, 255)])
+        else:
+            x = bytes(rng.getrandbits(8) for _ in range(size))
+        if any(x) and x not in used:
+            used.add(x)
+            return x
+    return _ident(rng, size, used)
+
+
 def _keyword(rng, limit, taken, near=None):
     while True:
         n = rng.randint(1, min(limit, 12))
@@ -92,7 +127,7 @@ def _keyword(rng, limit, taken, near=None):
             return w
 
 
-PROFILES = ["one", "pow2", "pow2_single", "boundary", "many_small", "mixed", "shared_ids", "big_list", "long_keywords"]
+PROFILES = ["one", "pow2", "pow2_single", "boundary", "many_small", "mixed", "shared_ids", "big_list", "long_keywords", "structured_ids"]
 # large databases (array indexes, counters and pointer widths beyond one byte); run for one configuration per scheme
 BIG_PROFILES = ["many_keywords", "long_list"]
 
@@ -138,6 +173,8 @@ def gen_db(name, cfg, rng, profile, scale=1):
         lens = [rng.randint(40, 90)] + [rng.randint(1, 3) for _ in range(2)]
     elif profile == "long_keywords":
         lens = [rng.randint(1, 5) for _ in range(rng.randint(1, 4))]
+    elif profile == "structured_ids":
+        lens = [rng.randint(5, 14 * scale)] + [rng.randint(1, 6) for _ in range(rng.randint(1, 3))]
     elif profile == "many_keywords":
         lens = [rng.randint(1, 4) for _ in range(150)]
     elif profile == "long_list_2byte":
@@ -163,7 +200,10 @@ def gen_db(name, cfg, rng, profile, scale=1):
             db[w] = rng.sample(pool, l)
         else:
             lu = set()
-            db[w] = [_ident(rng, ids, lu) for _ in range(l)]
+            if profile == "structured_ids":
+                db[w] = [_structured_ident(rng, ids, lu, l) for _ in range(l)]
+            else:
+                db[w] = [_ident(rng, ids, lu) for _ in range(l)]
     return db
 
 
